@@ -807,15 +807,19 @@ def gen_arg_corner(rng):
     return c
 
 
-def check_args_vs_hand(ctx, case):
+def hand_req(case):
+    cmd, d = model_req(case)
+    return (cmd, dict(d, hand=True))
+
+
+def check_args_vs_hand(ctx, case, rep=None):
     """REAL sorted / inner_join / joined vs the Lean HAND model of the argument resolution (sortArgs, joinKeysH,
     joinedCallH - what the theorems sorted_args_translated / join_keys_translated are about) followed by the table
     model.  None or (what, expected, got, sig)"""
     if not modelable(case) or getattr(ctx, "driver", None) is None:
         return None
-    cmd, d = model_req(case)
-    d = dict(d, hand=True)
-    rep = ctx.driver.batch([(cmd, d)])[0]
+    if rep is None:
+        rep = ctx.driver.batch([hand_req(case)])[0]
     real = run_real(case)
     diff = compare_model_real(case, rep, real)
     if diff is None:
@@ -2311,11 +2315,12 @@ def spec_check(ctx, budget):
     # argument forms at the corners (empty list / tuple / '' as columns, tuples): REAL vs the Lean HAND model of the
     # argument resolution - the spec side of sorted_args_translated / join_keys_translated / joined_call_translated
     arng = ctx.subrng(f"args{budget}")
-    for _ in range(300 * budget):
-        acase = gen_arg_corner(arng)
+    acases = [c for c in (gen_arg_corner(arng) for _ in range(300 * budget)) if modelable(c)]
+    areps = ctx.driver.batch([hand_req(c) for c in acases]) if getattr(ctx, "driver", None) is not None else []
+    for acase, arep in zip(acases, areps):
         out["evaluations"] += 1
         bump(out, "arg_corner_op", acase["op"])
-        f = check_args_vs_hand(ctx, acase)
+        f = check_args_vs_hand(ctx, acase, arep)
         if f:
             fail(f[0], dict(kind="args", case=acase), f[1], f[2], f[3])
         else:
